@@ -4,8 +4,9 @@ import VoluteModel.Model.CanonGen
 # Boolean checks on swap / flip sequences, and their kernel evaluation on the runtime generators
 
 Everything here is independent of the constant tables of /repo (it imports only the model of the
-generators), so the expensive kernel evaluations for n = 7 and n = 8 are cached across table
-changes.  The checks:
+generators).  The checks are evaluated in the kernel on the tables of the source (n <= 6,
+`SeqFacts.lean`); for the run-time generators (n >= 7) the same facts are theorems for every n
+(`Gray.lean`, `Sjt.lean`).  The checks:
  * `flipFactsB`  : positions valid, the Gray walk is closed, not empty;
  * `swapFactsB`  : positions valid, the walk returns to the identity, not empty;
  * `distinctPermsB` / `distinctMasksB` : the permutations (masks) before each step are pairwise
@@ -325,15 +326,5 @@ theorem swapAllB_spec (n len : Nat) (swaps : List Nat) (h : swapAllB n len swaps
 /-- everything needed about a flip sequence -/
 def flipAllB (n : Nat) (flips : List Nat) : Bool :=
   flipFactsB n flips && distinctMasksB flips && (flips.length == 2 ^ n)
-
-/-! ## the runtime generators for n = 7 (n = 8: `SeqGen8.lean`) -/
-
-theorem flips_gen7 : flipAllB 7 (generateGrayFlips 7 true) = true := by decide +kernel
-
-theorem flips_gen8 : flipAllB 8 (generateGrayFlips 8 true) = true := by decide +kernel
-
-set_option maxRecDepth 200000 in
-theorem swaps_gen7 : (match generateSwaps 7 true with | some sw => swapAllB 7 5040 sw | none => false) = true := by
-  decide +kernel
 
 end VoluteModel
